@@ -230,6 +230,14 @@ judge(int i, int j, int binding_all, int replay)
 	if (bad) {
 		return bad;
 	}
+#if !defined C08_JUDGE_MILITARY_MIDNIGHT
+	if (a->mil || b->mil) {
+		/* reading: see c08_cmp.c; only termination and the operator table are judged */
+		EX_CTR(c_skipm, "skipped:pair with the text T24:00:00 (its place on the timeline is C11's statement, the repository's tests pin another one)");
+		++*c_skipm;
+		e = got[OP_CMP] == 0 ? 0 : got[OP_CMP] == 1 ? 1 : got[OP_CMP] == 2 ? -1 : -2;
+	}
+#endif
 	/* what --cmp says about the pair, by the help text: 0 equal, 1 left newer, 2 right newer */
 	c = got[OP_CMP] == 0 ? 0 : got[OP_CMP] == 1 ? 1 : got[OP_CMP] == 2 ? -1 : -2;
 	*c_trans += NOPS;
@@ -300,7 +308,7 @@ main(int argc, char *argv[])
 	}
 	ex_meta("rule", "dtest's main() in a forked child on every ordered pair of the value set; same-kind pairs x 9 operators "
 		"(--eq --ne --lt --le --gt --ge --ot --nt --cmp), (a) --cmp's status must be the help text's code for sign(instant(a) - instant(b)) "
-		"(instants from the reference calendar; T24:00:00 denotes 00:00:00 of the next day, own class), (b) every other operator's status "
+		"(instants from the reference calendar; pairs with the text T24:00:00: only (b) unless built with -DC08_JUDGE_MILITARY_MIDNIGHT), (b) every other operator's status "
 		"must be the help text's function of the comparison --cmp reported; "
 		"mixed-kind pairs once with --cmp, judged for normal termination with status 0..3 only. "
 		"non-trivial = pair whose texts are ordered differently as strings than as instants");
